@@ -222,7 +222,7 @@ def run(ctx):
               construct=f"{SPINNER}:Spinner._clean::remember")
 
     # -- R-STALE-JUNK-FIRST ----------------------------------------------------------------------
-    raise_nodes = [n.id for n in cfg.nodes if n.id in live and n.kind == "raise" and n.ast.exc is not None
+    raise_nodes = [n.id for n in cfg.nodes if n.id in live and n.kind == "raise" and isinstance(n.ast, ast.Raise) and n.ast.exc is not None
                    and "StaleJunkError" in norm(n.ast.exc)]
     chk("R-STALE-JUNK-FIRST", "refusal present", len(raise_nodes) == 1, "run() no longer raises StaleJunkError")
     if raise_nodes:
@@ -275,7 +275,7 @@ def run(ctx):
     ctx.check("R-RESULT-3WAY", "_get_result never falls off the end", getres, not implicit,
               "a path through _get_result returns None implicitly instead of raising NoResultError",
               path=[gcfg.nodes[a].describe() for a in implicit] or None, construct=f"{SPINNER}:Spinner._get_result::no-implicit-return")
-    raises = [n for n in gcfg.nodes if n.id in glive and n.kind == "raise" and n.ast.exc is not None and "NoResultError" in norm(n.ast.exc)]
+    raises = [n for n in gcfg.nodes if n.id in glive and n.kind == "raise" and isinstance(n.ast, ast.Raise) and n.ast.exc is not None and "NoResultError" in norm(n.ast.exc)]
     ctx.check("R-RESULT-3WAY", "neither -> NoResultError", getres, len(raises) == 1, "_get_result no longer raises NoResultError when there is no result",
               construct=f"{SPINNER}:Spinner._get_result::noresult")
     rex = nodes_calling(gcfg, lambda c: dotted(c.func) == "self._failure.raiseException", glive)
@@ -402,7 +402,7 @@ def run(ctx):
     sets = [n.id for n in dcfg.nodes if n.id in dlive and flag_store(n, True)]
     clears = [n.id for n in dcfg.nodes if n.id in dlive and flag_store(n, False)]
     calls = nodes_calling(dcfg, lambda c: dotted(c.func) == fn_param, dlive)
-    reraise = [n.id for n in dcfg.nodes if n.id in dlive and n.kind == "raise" and n.ast.exc is not None and "ReentryError" in norm(n.ast.exc)]
+    reraise = [n.id for n in dcfg.nodes if n.id in dlive and n.kind == "raise" and isinstance(n.ast, ast.Raise) and n.ast.exc is not None and "ReentryError" in norm(n.ast.exc)]
     D = f"{SPINNER}:not_reentrant.decorated"
     ok = len(sets) == 1 and len(calls) == 1 and bool(clears) and len(reraise) == 1
     ctx.check("R-REENTRANCY-FLAG", "wrapper has test, set, call, clear", dec, ok, "not_reentrant wrapper lost its re-entry test / flag set / call / flag clear", construct=f"{D}::shape")
